@@ -420,6 +420,17 @@ def _walk_objs(obj, depth=0, parent=None, seen=None):
             yield from _walk_objs(c, depth + 1, obj, seen)
 
 
+def branch_shortcuts(obj):
+    """A Branch mirrors its first ten members in the attributes i0 ... i9 (documented access path): they must be the
+    members themselves.  -> None or (node, k)"""
+    for node, _, _ in _walk_objs(obj):
+        if getattr(node, "name", "") == "Branch" and "values" in node.__dict__:
+            for k, v in enumerate(list(node.values)[:10]):
+                if node.__dict__.get("i%d" % k, v) is not v:
+                    return node, k
+    return None
+
+
 def shared_node(x, t):
     """shallowest sub-aggregator of x that is also reachable from t (identity) -> (node, parent in x) or None"""
     tn = [o for o, _, _ in _walk_objs(t)]
